@@ -130,7 +130,7 @@ fn decode(ctx: &Ctx, tape: &[u32], disk: Option<DiskCfg>) -> LiteCase {
     LiteCase {
         sql: query.print(Dialect::Rl),
         lite_sql: query.print(Dialect::Lite),
-        lite_sql_unlimited: query.print_opts(Dialect::Lite, true, false),
+        lite_sql_unlimited: query.print_unlimited(Dialect::Lite),
         lite_setup,
         db,
         query,
